@@ -75,3 +75,38 @@ Example C07_example :
   option_map root (rnode_at (lca_rec O) [true]) = Some [false] /\
   forallb (fun r => ext_leb (cost c O (lca_rec O)) (cost c O r)) (all_recs S O) = true.
 Proof. vm_compute. repeat split. Qed.
+
+(* ---- the tie to the source by translation: reconcile_lca of compute/reconciliation.py, regenerated into Gen/ThlGen.v on every run, returns the dictionary that denotes the model's LCA reconciliation (Model/LcaRec.v), for every binary object tree with distinct nodes; the LCA structure is the path operation lcp (C17) ---- *)
+
+From SR Require Import Gen.TableGen Gen.ThlGen Proofs.TableGenProofs Proofs.ThlGenProofs.
+
+Theorem C07_gen_reconcile_lca_eq :
+  forall (lca node_id : Type) (nid_eqb : node_id -> node_id -> bool),
+       (forall a b : node_id, reflect (a = b) (nid_eqb a b)) ->
+       forall (lcaobj : lca) (c : EV.CostValues) (leafsp : node_id -> path)
+         (syn : node_id -> list fam) (O : EV.TreeNode node_id) (missing : node_id -> path),
+       NoDup (map EV.TreeNode_id (T.TreeNode_postorder O)) ->
+       exists d : list (node_id * path),
+         T.gen_reconcile_lca nid_eqb (fun _ : lca => lcp)
+           {|
+             EV.rin_object_tree := O;
+             EV.rin_species_lca := lcaobj;
+             EV.rin_leaf_object_species := leafsp;
+             EV.rin_costs := c
+           |} =
+         T.Ok
+           {|
+             T.tout_input :=
+               {|
+                 EV.rin_object_tree := O;
+                 EV.rin_species_lca := lcaobj;
+                 EV.rin_leaf_object_species := leafsp;
+                 EV.rin_costs := c
+               |};
+             T.tout_object_species := d
+           |} /\
+         EvalGenProofs.rtree_of (T.dict_fun nid_eqb missing d) O =
+         lca_rec (EvalGenProofs.otree_of leafsp syn O).
+Proof. exact @gen_reconcile_lca_eq. Qed.
+Print Assumptions C07_gen_reconcile_lca_eq.
+
